@@ -1,6 +1,6 @@
 #!/bin/bash
 # Validation aid (never registered): applies each behaviour-preserving refactoring under $1 (dirs with patch.diff) to a
-# scratch worktree of /repo and runs all 19 quick checks; every VIOLATION line printed is a false alarm to repair.
+# scratch worktree of /repo and runs all 19 quick checks (or those named in CHECKS); every VIOLATION line printed is a false alarm to repair.
 cd /verif
 # a private copy of the tool: the matrix takes long and bin/jsverif may be rebuilt meanwhile
 SNAP=$(mktemp /tmp/jsverif-snap.XXXXXX); cp "${JSVERIF_BIN:-/verif/bin/jsverif}" "$SNAP"; chmod +x "$SNAP"; export JSVERIF_BIN="$SNAP"; trap 'rm -f "$SNAP"' EXIT
@@ -12,7 +12,7 @@ one() {
   (cd "$wt" && GOFLAGS=-mod=mod GOPROXY=off GOSUMDB=off GOTOOLCHAIN=local go build ./... >/dev/null 2>&1) || { echo "$id MERGE-BROKEN (the patch no longer builds on the moved tree)"; git -C /repo worktree remove --force "$wt"; exit 0; }
   ln -s /verif/known_findings.json "$vd/known_findings.json"; ln -s /verif/tools "$vd/tools"
   out="$d/.alarms.txt"; : > "$out"
-  for p in C01 C02 C03 C04 C05 C06 C07 C08 C09 C10 C11 C12 C13 C14 C15 C16 C17 C18 C19; do
+  for p in ${CHECKS:-C01 C02 C03 C04 C05 C06 C07 C08 C09 C10 C11 C12 C13 C14 C15 C16 C17 C18 C19}; do
     VERIF_REPO="$wt" VERIF_DIR="$vd" timeout 600 ${JSVERIF_BIN:-/verif/bin/jsverif} check $p ${TIER:-quick} 2>&1 | grep -a "^VIOLATION" | cut -c1-500 >> "$out"
   done
   git -C /repo worktree remove --force "$wt"; rm -rf "$vd"
